@@ -66,6 +66,19 @@ def _pattern_test(subject, pat, binds=None):
             not pat.kwd_patterns:
         return ast.Call(ast.Name("isinstance", ast.Load()),
                         [subject, pat.cls], [])
+    if isinstance(pat, ast.MatchClass) and len(pat.patterns) == 1 and \
+            not pat.kwd_patterns and isinstance(pat.cls, ast.Name) and \
+            pat.cls.id in ("int", "str", "float", "bytes", "bool",
+                           "bytearray", "list", "tuple", "dict", "set",
+                           "frozenset") and _pure_subject(subject):
+        # `int(x)`: for these builtins the one positional sub-pattern is
+        # matched against the subject itself
+        t1 = ast.Call(ast.Name("isinstance", ast.Load()),
+                      [subject, pat.cls], [])
+        t2 = _pattern_test(subject, pat.patterns[0], binds)
+        if t2 is None:
+            return None
+        return t1 if t2 is True else ast.BoolOp(ast.And(), [t1, t2])
     if isinstance(pat, ast.MatchClass) and not pat.patterns and \
             _pure_subject(subject):
         # C(attr=pattern, ...): isinstance and the attribute tests
@@ -196,7 +209,16 @@ class Desugar(ast.NodeTransformer):
                         isinstance(n, ast.Name) and n.id in {
                             b[0] for b in binds}
                         for n in ast.walk(c.guard)):
-                    return node      # guard on a nested capture: not read
+                    # guard on a nested capture: the captured part of the
+                    # (side-effect free) subject written out in the guard
+                    bd = dict(binds)
+
+                    class SubG(ast.NodeTransformer):
+                        def visit_Name(self, n):
+                            if n.id in bd and isinstance(n.ctx, ast.Load):
+                                return ast.copy_location(_copy(bd[n.id]), n)
+                            return n
+                    c.guard = SubG().visit(c.guard)
                 c.body = [ast.copy_location(ast.Assign(
                     [ast.Name(nm, ast.Store())], _copy(ex)), pat)
                     for nm, ex in binds] + list(c.body)
